@@ -199,9 +199,14 @@ theorem lexRead_idW (ws : List UInt8) (hws : Blanks ws) (cs : List Char) (hcs : 
   obtain ⟨e2, h2⟩ := lexRead_id cs hcs s' rest (f' + 1) hat'' hst (by omega)
   exact ⟨advN cs.length s', by rw [e, e2], h2, advN_stash_nil _ _ hst'⟩
 
+/-- a lone CR is a line ending only when no LF follows it -/
+def NoLF (nl rest : List UInt8) : Prop := nl = [13] → rest.head? ≠ some 10
+
+theorem NoLF_of_ne {nl rest : List UInt8} (h : rest.head? ≠ some 10) : NoLF nl rest := fun _ => h
+
 /-- a line ending: one `.ch 10` token -/
 theorem lexRead_nl (nl : List UInt8) (hn : Nl nl) (s : Scan) (rest : List UInt8) (h : At s (nl ++ rest))
-    (hs : s.stash.length ≤ 1) (fuel : Nat) :
+    (hcr : NoLF nl rest) (hs : s.stash.length ≤ 1) (fuel : Nat) :
     ∃ s', lexRead (fuel + 1) s = .ok { sc := s', tok := .ch 10 } ∧ At s' rest ∧ s'.stash = [] := by
   cases hn with
   | lf =>
@@ -214,6 +219,19 @@ theorem lexRead_nl (nl : List UInt8) (hn : Nl nl) (s : Scan) (rest : List UInt8)
     rw [lexRead]
     simp only [h.eof, h.cur, h.read]
     simp [isSpecial]
+  | cr =>
+    simp only [List.cons_append, List.nil_append] at h
+    refine ⟨s.advance, ?_, h.advance, advance_stash_nil hs⟩
+    rw [lexRead]
+    simp only [h.eof, h.cur]
+    cases rest with
+    | nil => rw [h.read_last]; simp [isSpecial]
+    | cons x r =>
+      have hx : x ≠ 10 := by
+        have := hcr rfl
+        simpa using this
+      rw [h.read]
+      simp [isSpecial, hx]
 
 /-! ### keyword literals before any legal continuation -/
 
